@@ -12,6 +12,7 @@ from typing import Any, Dict, List, Optional, Set, Tuple
 
 from .core import Finding, Inconclusive, Repo, RuleResult, enclosing, parent, qualname, rule, short, src_of
 from .guards import _const_int, _split, facts_at
+from .normal import show as show_poly
 from .pymodel import ClassInfo, FuncInfo, Inst, Model, Typer, get_model
 
 AST = "compiler/bitproto/_ast.py"
@@ -937,21 +938,41 @@ FORMATTERS = {"c": ("impls/c/formatter.py", "CFormatter"), "go": ("impls/go/form
 
 
 def read_case_style_mapping(repo: Repo, lang: str) -> Dict[str, Any]:
+    """The table the formatter's case_style_mapping() returns, evaluated on its
+    paths (module constants and the CaseStyleMapping(...) wrapper are seen through)."""
+    from .flows import compiler_flow
+    from .pyflow import single_atom, str_of
+
     m = get_model(repo)
     rel, cn = FORMATTERS[lang]
     fi = m.func(rel, f"{cn}.case_style_mapping")
-    for n in ast.walk(fi.node):
-        if isinstance(n, ast.Dict):
-            out: Dict[str, Any] = {}
-            for k, v in zip(n.keys, n.values):
-                if not isinstance(k, ast.Name):
-                    raise Inconclusive(f"{cn}.case_style_mapping: key {src_of(k)} is not a class name")
-                try:
-                    out[k.id] = ast.literal_eval(v)
-                except Exception:
-                    raise Inconclusive(f"{cn}.case_style_mapping: value {src_of(v)} is not a literal")
-            return out
-    raise Inconclusive(f"{cn}.case_style_mapping: no dict literal")
+    flow = compiler_flow(repo, cn, rel, module_funcs=True)
+    tables = []
+    for p_ in flow.run(fi.node):
+        if p_.done != "return" or p_.ret is None:
+            continue
+        a_ = single_atom(p_.ret)
+        while a_ is not None and a_[0] == "call" and len(a_[2]) == 1 and a_[1] in ("CaseStyleMapping", "dict", "Dict"):
+            a_ = single_atom(a_[2][0])
+        if a_ is None or a_[0] != "dict":
+            raise Inconclusive(f"{cn}.case_style_mapping: returns `{show_poly(p_.ret)}`, not a table")
+        out: Dict[str, Any] = {}
+        for k, v in zip(a_[1], a_[2]):
+            ka = single_atom(k)
+            if ka is None or ka[0] != "var":
+                raise Inconclusive(f"{cn}.case_style_mapping: key {show_poly(k)} is not a class name")
+            sv = str_of(v)
+            va = single_atom(v)
+            if sv is not None:
+                out[ka[1]] = sv
+            elif va is not None and va[0] == "tuple" and all(str_of(x) is not None for x in va[1]):
+                out[ka[1]] = tuple(str_of(x) for x in va[1])
+            else:
+                raise Inconclusive(f"{cn}.case_style_mapping: value {show_poly(v)} is not a literal")
+        tables.append(out)
+    if not tables or any(t != tables[0] for t in tables):
+        raise Inconclusive(f"{cn}.case_style_mapping: no single table")
+    return tables[0]
 
 
 def effective_style(m: Model, table: Dict[str, Any], kind: str) -> Any:
